@@ -60,6 +60,7 @@ def replay(rec, ctx):
     cx = ctx or rec
     dim, n, poly = cx["dim"], cx["n"], POLYS[cx["poly"] - 1]
     viol = []
+    protocol = []
     for place, nbe, fb in (("origin", False, None), ("origin", True, BOUNDS["wide"]), ("offset", False, None), ("origin", False, BOUNDS["degenerate"]), ("origin", False, BOUNDS["exceeded"])):
         X0 = ORIGINS[place]
         cache, f = make(dim, n, poly, nbe, fb, place)
@@ -91,8 +92,9 @@ def replay(rec, ctx):
             off = max([abs((x - X0[k]) / H[k] - round((x - X0[k]) / H[k])) for call in f.calls for k, x in enumerate(call)] or [0.0])
             want = [tuple(a) for a in e["asks"]]
             if asked != want or off > 1e-6:
-                bad("sampling-protocol-differs", f"evaluation {i} at {pt}: asked nodes {asked[:8]}.. spec {want[:8]}.. (max node offset {off:.1e})")
-                break
+                # which nodes the wrapped function is asked for, and in which order, is how the classes work today, not something
+                # the statement demands: recorded, and reported only if a value turns out wrong as well
+                protocol.append((tag, f"evaluation {i} at {pt}: asked nodes {asked[:8]}.. spec {want[:8]}.. (max node offset {off:.1e})"))
             if dim == 1:
                 exact = e["value128"] / 128.0
                 if abs(val - exact) > 2e-5 * max(1.0, abs(exact)):
@@ -105,6 +107,11 @@ def replay(rec, ctx):
             vp = plain(*pt)
             if not core.close(val, vp, rtol=1e-9, atol=1e-9):
                 bad("value-depends-on-function_boundaries", f"at {pt}: {val!r} vs {vp!r} without bounds")
+    if protocol:
+        if viol:
+            viol.append({"sig": f"{protocol[0][0]}:sampling-protocol-differs", "detail": protocol[0][1]})
+        else:
+            return [{"observation": f"{protocol[0][0]}:sampling-protocol-differs"}]
     return viol
 
 
@@ -202,7 +209,10 @@ def run(v):
         out = core.fan_out("mbt.c14", "replay", full, {"dim": dim, "n": n, "poly": poly})
         for r, vs in zip(full, out):
             for x in vs:
-                v.violation(x["sig"], x["detail"], dict(r, dim=dim, n=n, poly=poly))
+                if "observation" in x:
+                    v.notes.setdefault("not_asserted", {})[x["observation"]] = v.notes.setdefault("not_asserted", {}).get(x["observation"], 0) + 1
+                else:
+                    v.violation(x["sig"], x["detail"], dict(r, dim=dim, n=n, poly=poly))
         v.add_cases(len(full), keys=[f"{dim}{n}{poly}" + json.dumps(r["h"]) for r in full])
         v.sample({"dim": dim, "cells_per_axis": n, "poly": POLYS[poly - 1], "history": [{k: x for k, x in e.items() if k != "asks"} for e in full[len(full) // 2]["h"]]})
     for dim, n in ((1, 5), (2, 3), (3, 2)):
